@@ -317,7 +317,7 @@ impl Property for C19 {
     }
     fn required_labels(&self) -> Vec<String> {
         let mut v: Vec<String> = (0..120).map(|c| format!("code={}", code_name(c))).collect();
-        v.extend(["default-b0!=0", "infinite-side", "both-sides", "names", "diagonal-entry", "error=truncation", "error=type-wrong-letter", "error=type-too-short", "error=bad-sense", "error=bad-n", "error=bad-q0-entry", "error=bad-infinity", "error=bad-cl-entry", "error=bad-type-entry", "comments", "trailing-text", "integer-01-bounds", "matrix-entries-below-epsilon", "crlf-line-endings", "name-with-exponent-like-fragment", "tab-separated-entries", "decimal-constraint-sides", "name-starting-like-a-number-with-d-inside", "non-default-starting-point-entries", "starting-multiplier-for-a-constraint-index-beyond-the-variables", "constraints-but-no-linear-constraint-term", "name-with-a-remark-character"].iter().map(|s| s.to_string()));
+        v.extend(["default-b0!=0", "infinite-side", "both-sides", "names", "diagonal-entry", "error=truncation", "error=type-wrong-letter", "error=type-too-short", "error=bad-sense", "error=bad-n", "error=bad-q0-entry", "error=bad-infinity", "error=bad-cl-entry", "error=bad-type-entry", "comments", "trailing-text", "integer-01-bounds", "matrix-entries-below-epsilon", "crlf-line-endings", "name-with-exponent-like-fragment", "tab-separated-entries", "decimal-constraint-sides", "name-starting-like-a-number-with-d-inside", "non-default-starting-point-entries", "starting-multiplier-for-a-constraint-index-beyond-the-variables", "constraints-but-no-linear-constraint-term", "name-with-a-remark-character", "name-is-x-plus-own-position"].iter().map(|s| s.to_string()));
         v
     }
     fn cases(&self, tier: Tier) -> usize {
